@@ -462,7 +462,8 @@ func (res *CheckResult) checkSource(source parser.Source) {
 			res.unboundedAccountInSend = source.Address
 		}
 
-		if res.unboundedSend {
+		// (a bounded overdraft can be sent entirely)
+		if res.unboundedSend && source.Bounded == nil {
 			res.Diagnostics = append(res.Diagnostics, Diagnostic{
 				Range: source.Address.GetRange(),
 				Kind:  &InvalidUnboundedAccount{},
